@@ -384,3 +384,9 @@ pub open spec fn opt_mdia_ok(o: Option<MdiaBox>) -> bool { o matches Some(x) ==>
 pub open spec fn opt_trun_ok(o: Option<TrunBox>) -> bool { o matches Some(x) ==> trun_parsed(x) }
 pub open spec fn traks_ok(v: Seq<TrakBox>) -> bool { forall|i: int| 0 <= i < v.len() ==> trak_parsed(#[trigger] v[i]) }
 pub open spec fn opt_moov_ok(o: Option<MoovBox>) -> bool { o matches Some(x) ==> moov_parsed(x) }
+
+/// movie-level default sample duration (trex, 8.8.3) reaches every track that has fragments
+pub open spec fn frag_defaults_ok<R>(m: Mp4Reader<R>) -> bool {
+    forall|id: u32| #[trigger] m.tracks@.contains_key(id) && m.tracks@[id].trafs@.len() > 0
+        ==> m.tracks@[id].default_sample_duration == (match m.moov.mvex { Some(x) => x.trex.default_sample_duration, None => 0u32 })
+}
